@@ -541,6 +541,10 @@ class TenSym(PySym):
                 return base[self.ex(n.slice)]
             if isinstance(base, Obj) and callable(base.__dict__.get("_getitem")):
                 return base._getitem(base, self.key(n.slice))
+            if isinstance(base, Obj) and "__getitem__" in (base.__dict__.get("_methods") or {}):
+                gi = base._methods["__getitem__"]
+                sub = TenSym(self.globals_env(), self.positive, self.funcs, parent=self)
+                return sub.run_fn(gi, **{"self": base, gi.args.args[1].arg: self.key(n.slice)})
             raise Unsupported("subscript of %s" % type(base).__name__)
         if isinstance(n, ast.Call):
             return self.call(n)
@@ -566,6 +570,8 @@ class TenSym(PySym):
             return is_and
         if isinstance(n, ast.IfExp):
             return self.ex(n.body) if self.truth(self.ex(n.test)) else self.ex(n.orelse)
+        if isinstance(n, ast.Lambda):
+            return ("<lambda>", n, self)
         raise Unsupported("expression %s" % type(n).__name__)
 
     def compare(self, op, a, b, n=None):
@@ -723,6 +729,11 @@ class TenSym(PySym):
                     return t.reshape([-1])
                 raise Unsupported("array method %s" % m)
             if isinstance(recv, Obj):
+                cm = recv.__dict__.get("_methods") or {}
+                if m in cm and m not in recv.__dict__:
+                    # a method of the modelled class: evaluated from its source with self bound to the model object
+                    sub = TenSym(self.globals_env(), self.positive, self.funcs, parent=self)
+                    return sub.run_fn(cm[m], **dict({"self": recv}, **{cm[m].args.args[i + 1].arg: self.ex(a) for i, a in enumerate(n.args)}, **{k.arg: self.ex(k.value) for k in n.keywords if k.arg}))
                 f = getattr(recv, "_ctor", None) if m == "__class__" else getattr(recv, m, None)
                 if callable(f):
                     return f(*[self.pyval(self.ex(a)) for a in n.args], **{k.arg: self.pyval(self.ex(k.value)) for k in n.keywords if k.arg})
@@ -745,6 +756,8 @@ class TenSym(PySym):
         A = lambda i: self.ex(n.args[i])      # noqa: E731
         if cn in ("np.array", "np.asarray", "np.ascontiguousarray", "np.asfortranarray"):
             v = A(0)
+            if isinstance(v, Ten) and cn == "np.array" and self.kw(n, "copy", None, True) is not False:
+                return Ten(v.shape, v.data)         # np.array copies unless told not to
             return self.to_ten(v) if isinstance(v, (list, tuple)) else v
         if cn in ("np.expand_dims",):
             t = self.to_ten(A(0))
@@ -927,6 +940,11 @@ class TenSym(PySym):
             return (list if cn == "list" else tuple)(self.iterate(A(0)))
         if cn in ("float", "np.float64", "np.float32", "np.double"):
             return A(0)
+        if cn == "bool":
+            return self.truth(A(0))
+        if cn == "slice":
+            vs = [self.ex(a) for a in n.args]
+            return slice(*[None if v is None else self.concrete(v) for v in vs])
         if cn in ("int", "np.ceil", "np.floor", "math.ceil", "math.floor"):
             v = self.lift(A(0))
             if isinstance(v, int):
@@ -962,6 +980,20 @@ class TenSym(PySym):
             raise Unsupported("isinstance on a symbolic value")
         if cn in ("ensure_type",):
             return A(0)
+        if cn == "sorted" and any(k.arg == "key" for k in n.keywords):
+            items = list(self.iterate(A(0)))
+            keyf = self.kw(n, "key")
+            if not (isinstance(keyf, tuple) and keyf and keyf[0] == "<lambda>"):
+                raise Unsupported("sorted with a key that is not a lambda")
+            ks = [self.pyval(self.apply_lambda(keyf, [it])) for it in items]
+            if any(isinstance(k_, (Rat, Ten, Obj)) for k_ in ks):
+                raise Unsupported("sorted by symbolic keys")
+            order = sorted(range(len(items)), key=lambda i_: ks[i_])
+            if self.kw(n, "reverse", None, False):
+                order.reverse()
+            return [items[i_] for i_ in order]
+        if cn in ("np.fromiter",):
+            return self.to_ten([x for x in self.iterate(A(0))])
         if cn in ("sorted", "min", "max", "reversed", "set", "abs") and cn != "abs":
             if cn in ("min", "max") and len(n.args) > 1:
                 vals = [self.pyval(self.ex(a)) for a in n.args]
@@ -973,8 +1005,6 @@ class TenSym(PySym):
                 raise Unsupported("%s of symbolic values" % cn)
             if cn == "sorted":
                 rev = self.kw(n, "reverse", None, False)
-                if any(k.arg == "key" for k in n.keywords):
-                    raise Unsupported("sorted with a key function")
                 return sorted(vals, reverse=bool(rev))
             if cn == "set":
                 return sorted(set(vals))
@@ -1021,6 +1051,13 @@ class TenSym(PySym):
         la = "abcdefgh"[:a.ndim - 1]
         lb = "pqrstuvw"[:b.ndim - 2]
         return self.unwrap(einsum("%sz,%szy->%s%sy" % (la, lb, la, lb), [a, b]))
+
+    def apply_lambda(self, lam, args):
+        _, node, ev = lam
+        sub = TenSym(dict(ev.env), ev.positive, ev.funcs, parent=ev)
+        for p_, a in zip(node.args.args, args):
+            sub.env[p_.arg] = a
+        return sub.ex(node.body)
 
     def iterate(self, v):
         if isinstance(v, Ten):
@@ -1168,6 +1205,37 @@ class TenSym(PySym):
                 return
             if isinstance(s.value, ast.Call) and isinstance(s.value.func, ast.Attribute) and s.value.func.attr in ("append", "extend"):
                 self.ex(s.value)
+                return
+            if isinstance(s.value, ast.Call) and isinstance(s.value.func, ast.Attribute) and s.value.func.attr == "sort":
+                recv = self.ex(s.value.func.value)
+                if isinstance(recv, list) and not s.value.args and not s.value.keywords:
+                    vals = [self.pyval(x) for x in recv]
+                    if any(isinstance(v, (Rat, Ten, Obj)) for v in vals):
+                        raise Unsupported("sort of symbolic values")
+                    recv[:] = sorted(vals)
+                    return
+                if isinstance(recv, Ten) and not recv.view:
+                    axis = self.concrete(self.kw(s.value, "axis", 0, -1)) % recv.ndim
+                    cs = [x.const_value() for x in recv.data]
+                    if any(c is None for c in cs):
+                        raise Unsupported("sort of symbolic values")
+                    other = [k for k in range(recv.ndim) if k != axis]
+                    st_ = recv.strides()
+                    for multi in itertools.product(*[range(recv.shape[k]) for k in other]):
+                        offs = []
+                        for i in range(recv.shape[axis]):
+                            full = [0] * recv.ndim
+                            for k, v in zip(other, multi):
+                                full[k] = v
+                            full[axis] = i
+                            offs.append(sum(a * b for a, b in zip(full, st_)))
+                        vals = sorted(recv.data[o].const_value() for o in offs)
+                        for o, v in zip(offs, vals):
+                            recv.data[o] = Rat(Poly.const(v))
+                    return
+                raise Unsupported("in-place sort of %s" % type(recv).__name__)
+            if isinstance(s.value, ast.Call) and (call_name(s.value) or "") in self.models:
+                self.ex(s.value)        # a summarised callee called for its effect (a mutating kernel)
                 return
             raise Unsupported("expression statement %s" % src(s)[:40])
         elif isinstance(s, ast.If):
